@@ -932,6 +932,7 @@ func definitionRegistryTables(c *core.Ctx, r *core.Report, rule3, rule72 string)
 		if rule3 != "" && getMetas != nil {
 			bad := ""
 			runs := 0
+			scanConsulted := false
 			for mask := 0; mask < 8; mask++ {
 				for nopts := 0; nopts <= 2; nopts++ {
 					var run *defRegRun
@@ -945,6 +946,7 @@ func definitionRegistryTables(c *core.Ctx, r *core.Report, rule3, rule72 string)
 							opts.Elems = append(opts.Elems, absint.NewTok(fmt.Sprintf("opt%d", i), "option"))
 						}
 						t.callee[rng] = func(ip *absint.Interp, a []absint.Value) absint.Value {
+							scanConsulted = true
 							for i, m := range stored {
 								run.visited = append(run.visited, m.ID)
 								cont, ok := ip.CallValue(a[1], absint.NewTok(fmt.Sprintf("k%d", i), "key"), m).(absint.Bool)
@@ -1024,11 +1026,21 @@ func definitionRegistryTables(c *core.Ctx, r *core.Report, rule3, rule72 string)
 				}
 				r.Check(allTrue, rule3, "range-callback-continues@"+core.FnName(getMetas), c.Pos(ci.Pos()), "the scan callback returns the constant true on every path: the iteration is never cut short")
 			}
+			if bad != "" && (!scanConsulted || strings.HasPrefix(bad, "left the model")) {
+				// another representation than the sync2.Map the table above watches (its Range was never asked, or the
+				// routine left the model): the registry observed through its own methods only
+				if b2, r2 := definitionRegistryByStateMemo(c, T); b2 == "" && r2 > 0 {
+					bad, runs = "", runs+r2
+				} else {
+					bad += " | observed through its own methods: " + b2
+				}
+			}
 			r.Check(bad == "", rule3, "full-scan@"+core.FnName(getMetas), c.FnPos(getMetas), fmt.Sprintf("GetMetas visits every stored definition and returns exactly those accepted by all options, each once (%d abstract runs) %s", runs, bad))
 		}
 		if rule72 != "" && byName != nil {
 			bad := ""
 			runs := 0
+			loadConsulted := false
 			for _, hit := range []bool{true, false} {
 				var keys []string
 				build := func() (absint.Oracle, []absint.Value, []absint.Value) {
@@ -1036,12 +1048,14 @@ func definitionRegistryTables(c *core.Ctx, r *core.Report, rule3, rule72 string)
 					t := newTbl(c)
 					if rng != nil {
 						t.callee[rng] = func(ip *absint.Interp, a []absint.Value) absint.Value {
+							loadConsulted = true
 							keys = append(keys, "<scan of all definitions>")
 							ip.CallValue(a[len(a)-1], absint.NewTok("otherKey", "key"), absint.NewTok("Decoy", "meta"))
 							return nil
 						}
 					}
 					t.callee[load] = func(ip *absint.Interp, a []absint.Value) absint.Value {
+						loadConsulted = true
 						keys = append(keys, absint.Show(a[1]))
 						if hit {
 							return absint.Tuple{absint.NewTok("D", "meta"), absint.Bool(true)}
@@ -1066,6 +1080,13 @@ func definitionRegistryTables(c *core.Ctx, r *core.Report, rule3, rule72 string)
 				runs += k
 				if u != "" {
 					bad = "left the model: " + u
+				}
+			}
+			if bad != "" && (!loadConsulted || strings.HasPrefix(bad, "left the model")) {
+				if b2, r2 := definitionRegistryByStateMemo(c, T); b2 == "" && r2 > 0 {
+					bad = ""
+				} else {
+					bad += " | observed through its own methods: " + b2
 				}
 			}
 			r.Check(bad == "", rule72, "keyed-lookup@"+core.FnName(byName), c.FnPos(byName), "GetMetaByName is one load keyed by its argument; nil on a miss "+bad)
